@@ -233,6 +233,14 @@ def build_member(fam, k, side):
         data = vecs[0].copy()
     else:
         data = vecs
+    if form != 'mat3d' and data.size and not np.isnan(data).any() and np.all(data == np.round(data)) \
+            and (n_rdm + n) % 2 == 0:
+        # integer-valued RDMs handed over in an integer array (the constructor keeps the dtype of
+        # vector input): a deterministic half of the integral cases
+        data = data.astype(np.int64)
+    if data.ndim >= 2 and (3 * n_rdm + n) % 4 == 0:
+        # the same values in column-major memory (a transposed view, loadmat output, ...)
+        data = np.asfortranarray(data)
     obj = core.lib(RDMs, data, dissimilarity_measure=fam.get('measure'),
                    descriptors=dict(odesc), rdm_descriptors=rdesc, pattern_descriptors=pdesc,
                    on_error='violation', sig='raises:constructor')
